@@ -8,6 +8,7 @@
 //   - the set of mutexes CERTAINLY held there (intra-procedural Lock/Unlock/defer Unlock
 //     tracking; helpers inherit the intersection over their static call sites; goroutine
 //     bodies and function literals start with the empty set).
+//
 // Output: a Coq list (Gen/AccessTable.v) checked by `discipline_ok`, and the same as JSON.
 //
 // Trust direction: the extractor may DROP a lock that is held (-> an alarm), it must never
@@ -15,7 +16,8 @@
 // are dropped.
 //
 // usage: locktable -list <go list -export -deps -json output> -root <repo root>
-//                  -coq <out.v> -json <out.json> [-name access_table] pkgpath...
+//
+//	-coq <out.v> -json <out.json> [-name access_table] pkgpath...
 package main
 
 import (
